@@ -20,7 +20,7 @@ RULE = ('E1 enumeration of LAT=1 decks: unit cell 1D/2D/3D, orthogonal or skew, 
         'lattice semantics (element = unit cell + i a1 + j a2 + k a3, positive index across the first-listed '
         'surface of the pair, array read first-index-fastest, universe frame = translate(L_ijk) o T_fill) at '
         'complete plane-arrangement witnesses; non-trivial = at least two different owners; distinct = '
-        'deck text + options; also: card order, parentheses / complemented unions around pairs of the listing, one plane of a pair with the opposite normal, lattices of 4-40 elements, inlining options, FILL=<own universe> by number')
+        'deck text + options; also: card order, parentheses / complemented unions around pairs of the listing, one plane of a pair with the opposite normal, lattices of 4-40 elements, inlining options, FILL=<own universe> by number, unit cells written on two / four / six facets of an RPP')
 ASSUMPTIONS = [
     'MCNP lattice conventions as stated in the property (DESIGN 5)',
     'for lattice levels the provenance comment carries synthetic element ids: the lowest-level filler cell, '
